@@ -1457,9 +1457,25 @@ func mkForallRaw2(bvars []*Term, body *Term, pats [][]*Term) *Term {
 	return t
 }
 
-func SMTScript(asserts []*Term, extra []string) string {
-	asserts = elimRowCopy(asserts)
-	order, refs := collect(asserts)
+// named: additional terms to be defined under the given names (model inspection); they share
+// sub-terms with the assertions.
+func SMTScript(asserts []*Term, extra []string, named map[string]*Term) string {
+	nAssert := len(asserts)
+	var namedKeys []string
+	for k := range named {
+		namedKeys = append(namedKeys, k)
+	}
+	sort.Strings(namedKeys)
+	all := append([]*Term{}, asserts...)
+	for _, k := range namedKeys {
+		all = append(all, named[k])
+	}
+	all = elimRowCopy(all)
+	// elimRowCopy may prepend axioms: the named terms are the last len(namedKeys) entries
+	asserts = all[:len(all)-len(namedKeys)]
+	namedTerms := all[len(all)-len(namedKeys):]
+	_ = nAssert
+	order, refs := collect(all)
 	var sb strings.Builder
 	sorts := map[string]bool{}
 	var declSort func(s *Sort)
@@ -1534,6 +1550,15 @@ func SMTScript(asserts []*Term, extra []string) string {
 	for _, a := range asserts {
 		sb.WriteString("(assert ")
 		printTerm(&sb, a, names, 0)
+		sb.WriteString(")\n")
+	}
+	for i, k := range namedKeys {
+		t := namedTerms[i]
+		if t.bound {
+			continue
+		}
+		sb.WriteString("(define-fun |" + k + "| () " + t.Sort.str + " ")
+		printTerm(&sb, t, names, 0)
 		sb.WriteString(")\n")
 	}
 	return sb.String()
